@@ -4,6 +4,9 @@ import (
 	"bytes"
 	"fmt"
 	"image"
+	"image/color"
+	"image/draw"
+	"strings"
 	"math/rand"
 	"time"
 
@@ -57,12 +60,26 @@ func (c c15Case) String() string {
 
 func c15Encode(c c15Case, img1, img2 *image.NRGBA, icc, exif, xmp []byte) ([]byte, error) {
 	var buf bytes.Buffer
-	switch c.kind {
+	kind, typ, _ := strings.Cut(c.kind, "/")
+	var src image.Image = img1
+	switch typ {
+	case "rgba": // premultiplied storage: exercises the un-premultiply code of every encode path
+		r := image.NewRGBA(img1.Rect)
+		draw.Draw(r, r.Rect, img1, image.Point{}, draw.Src)
+		src = r
+	case "gray":
+		g := image.NewGray(img1.Rect)
+		draw.Draw(g, g.Rect, img1, image.Point{}, draw.Src)
+		src = g
+	case "generic":
+		src = genericImage{img1}
+	}
+	switch kind {
 	case "lossy", "lossy+alpha":
-		err := webp.Encode(&buf, img1, &webp.EncoderOptions{Quality: 60, Method: 3, ICC: icc, EXIF: exif, XMP: xmp})
+		err := webp.Encode(&buf, src, &webp.EncoderOptions{Quality: 60, Method: 3, ICC: icc, EXIF: exif, XMP: xmp})
 		return buf.Bytes(), err
 	case "lossless", "lossless+alpha":
-		err := webp.Encode(&buf, img1, &webp.EncoderOptions{Lossless: true, Quality: 60, Method: 3, ICC: icc, EXIF: exif, XMP: xmp})
+		err := webp.Encode(&buf, src, &webp.EncoderOptions{Lossless: true, Quality: 60, Method: 3, ICC: icc, EXIF: exif, XMP: xmp})
 		return buf.Bytes(), err
 	case "anim1", "anim2", "anim2lossy":
 		e := animation.NewEncoder(&buf, img1.Rect.Dx(), img1.Rect.Dy(), &animation.EncodeOptions{Quality: 60, Lossless: c.kind != "anim2lossy", LoopCount: 2})
@@ -90,7 +107,7 @@ func checkC15(args []string) {
 	run.Rule = "product of output kind x metadata subset x blob class (all subsets with one class each; pairwise class mixes seeded); every written file is read by the strict TLA+ container reader: blobs byte-equal, VP8X flags = exactly the chunks present, image chunks byte-identical to the same encode without metadata; distinct = distinct (kind, classes) cases with at least one blob"
 	run.Assumptions = []string{"an empty (zero-length) blob may be stored as an empty chunk or omitted", "spec/Riff.tla is the reference reader"}
 	rng := rand.New(rand.NewSource(run.Seed))
-	kinds := []string{"lossy", "lossy+alpha", "lossless", "lossless+alpha", "anim1", "anim2", "anim2lossy"}
+	kinds := []string{"lossy", "lossy+alpha", "lossless", "lossless+alpha", "lossless+alpha/rgba", "lossy+alpha/rgba", "lossless/gray", "lossless+alpha/generic", "anim1", "anim2", "anim2lossy"}
 	var cases []c15Case
 	classes := []int{2, 3, 4, 5, 6}
 	if run.Thorough() {
@@ -128,7 +145,7 @@ func checkC15(args []string) {
 	imgs := map[string][2]*image.NRGBA{}
 	for _, k := range kinds {
 		am := 0
-		if k == "lossy+alpha" || k == "lossless+alpha" || k == "anim2" || k == "anim2lossy" {
+		if strings.Contains(k, "+alpha") || k == "anim2" || k == "anim2lossy" {
 			am = 2
 		}
 		w, h := 9+rng.Intn(8), 7+rng.Intn(8)
@@ -244,3 +261,10 @@ func sameImage(a, b image.Image) bool {
 	}
 	return true
 }
+
+// genericImage hides the concrete type so that Encode must take its generic At() path.
+type genericImage struct{ im *image.NRGBA }
+
+func (g genericImage) ColorModel() color.Model { return color.NRGBAModel }
+func (g genericImage) Bounds() image.Rectangle { return g.im.Bounds() }
+func (g genericImage) At(x, y int) color.Color  { return g.im.NRGBAAt(x, y) }
